@@ -495,3 +495,49 @@ package core
 //@   loop 3 invariant forall j :: 0 <= j && j < len(result) ==> fn(core.ForkId.Matches, fork, result[j].forkId)
 //@   loop 3 invariant forall k :: S <= k && k < S + i && fn(core.ForkId.Matches, fork, node.forks[k].forkId) ==> cntB(T, A, O, k) < len(result) && result[cntB(T, A, O, k)] == node.forks[k]
 //@   loop 3 decreases len(forks) - i
+
+// U(x) below: the fork id has no part for x's call (matchPart reports an error).
+//@ func core.ForkId.matchPart property C01
+//@   pure
+//@   opt deterministic on
+
+// UnmatchedParts is the order-preserving filter of upstream by U (same shape as matchForks).
+//@ func core.ForkId.UnmatchedParts property C01
+//@   uses sums
+//@   nopanic
+//@   requires forall k :: 0 <= k && k < len(upstream) ==> upstream[k] != nil
+//@   let T = table r *syntax.CallGraphStage :: !isnil(fn(core.ForkId.matchPart, f, old(r.call)).1)
+//@   let A = old(arr(upstream0))
+//@   let O = old(off(upstream0))
+//@   let N = old(len(upstream0))
+//@   modifies elems(upstream0)
+//@   ensures @all len(f) == 0 && N != 0 ==> base(result) == base(upstream0) && off(result) == O && len(result) == N
+//@   ensures @sound len(f) != 0 ==> forall j :: 0 <= j && j < len(result) ==> !isnil(fn(core.ForkId.matchPart, f, result[j].call).1)
+//@   ensures @count len(f) != 0 ==> len(result) == cntB(T, A, O, N)
+//@   ensures @place len(f) != 0 ==> forall k :: 0 <= k && k < N && !isnil(fn(core.ForkId.matchPart, f, upstream0[k].call).1) ==> cntB(T, A, O, k) < len(result) && result[cntB(T, A, O, k)] == upstream0[k]
+//@   ensures @undisturbed forall k :: 0 <= k && k < N ==> upstream0[k] == old(upstream0[k])
+//@   let S = off(upstream) - O
+//@   let E = off(upstream) - O + len(upstream)
+//@   loop 1 invariant base(upstream) == base(upstream0) && off(upstream) >= O && E == N && cap(upstream) >= len(upstream) && arr(upstream0) == A && len(f) != 0
+//@   loop 1 invariant cntB(T, A, O, S) == 0
+//@   loop 1 invariant forall k :: 0 <= k && k < S ==> isnil(fn(core.ForkId.matchPart, f, upstream0[k].call).1)
+//@   loop 1 decreases len(upstream)
+//@   loop 2 invariant base(upstream) == base(upstream0) && off(upstream) >= O && E <= N && cap(upstream) >= len(upstream) && arr(upstream0) == A && len(f) != 0
+//@   loop 2 invariant cntB(T, A, O, S) == 0 && cntB(T, A, O, N) == cntB(T, A, O, E)
+//@   loop 2 invariant forall k :: 0 <= k && k < N && (k < S || k >= E) ==> isnil(fn(core.ForkId.matchPart, f, upstream0[k].call).1)
+//@   loop 2 invariant len(upstream) > 0 ==> !isnil(fn(core.ForkId.matchPart, f, upstream[0].call).1)
+//@   loop 2 decreases len(upstream)
+//@   loop 3 invariant 1 <= i && i <= len(upstream) - 1 && len(upstream) > 2 && len(f) != 0
+//@   loop 3 invariant base(upstream) == base(upstream0) && off(upstream) >= O && E <= N && cap(upstream) >= len(upstream)
+//@   loop 3 invariant forall k :: 0 <= k && k < N ==> upstream0[k] == old(upstream0[k])
+//@   loop 3 invariant framed(upstream0)
+//@   loop 3 invariant cntB(T, A, O, S) == 0 && cntB(T, A, O, N) == cntB(T, A, O, E)
+//@   loop 3 invariant forall k :: 0 <= k && k < N && (k < S || k >= E) ==> isnil(fn(core.ForkId.matchPart, f, upstream0[k].call).1)
+//@   loop 3 invariant !isnil(fn(core.ForkId.matchPart, f, upstream0[S].call).1) && !isnil(fn(core.ForkId.matchPart, f, upstream0[E-1].call).1)
+//@   loop 3 invariant (base(result) == base(upstream) && off(result) == off(upstream) && cap(result) == cap(upstream) && len(result) == i) || (base(result) != base(upstream) && !old(alloc(base(result))) && cap(result) == len(upstream) - 1 && cap(result) != cap(upstream) && 1 <= len(result) && len(result) <= i - 1)
+//@   loop 3 invariant base(result) == base(upstream) ==> cntB(T, A, O, S + i) == i
+//@   loop 3 invariant base(result) == base(upstream) ==> forall k :: S <= k && k <= S + i ==> cntB(T, A, O, k) == k - S
+//@   loop 3 invariant len(result) == cntB(T, A, O, S + i)
+//@   loop 3 invariant forall j :: 0 <= j && j < len(result) ==> !isnil(fn(core.ForkId.matchPart, f, result[j].call).1)
+//@   loop 3 invariant forall k :: S <= k && k < S + i && !isnil(fn(core.ForkId.matchPart, f, upstream0[k].call).1) ==> cntB(T, A, O, k) < len(result) && result[cntB(T, A, O, k)] == upstream0[k]
+//@   loop 3 decreases len(upstream) - i
